@@ -330,6 +330,7 @@ func runFilters(w io.Writer, stats map[string]int) {
 
 func runResources(r *Rng, n int, w io.Writer, stats map[string]int) {
 	for i := 0; i < n; i++ {
+		quantityForms = i%2 == 1
 		h := &Hist{r: r, stats: stats}
 		np, nn := r.rng(0, 7), r.rng(0, 6)
 		var pods []*v1.Pod
@@ -428,6 +429,7 @@ func runResources(r *Rng, n int, w io.Writer, stats map[string]int) {
 			stats["resources"]++
 		}
 	}
+	quantityForms = false
 }
 
 // ---------------------------------------------------------------------------------------------
